@@ -179,6 +179,8 @@ impl ActiveEdge {
                 self.fullx = self.next_x;
                 // increment until we have a next_y that's greater
                 while self.count > 0 && cury >= dot16_to_dot2(self.next_y) {
+                    #[cfg(feature = "verif")]
+                    crate::verif::tick(crate::verif::TickSite::CurveAdvanceStep);
                     self.next_x += self.dx >> self.shift;
                     self.dx += self.ddx;
                     self.next_y += self.dy >> self.shift;
@@ -336,11 +338,15 @@ impl Rasterizer {
 
         // if the edge is completely above or completely below we can drop it
         if edge.y2 < 0 || edge.y1 >= self.height {
+            #[cfg(feature = "verif")]
+            crate::verif::probe(crate::verif::ProbeSite::EdgeDroppedAboveBelow);
             return;
         }
 
         // drop horizontal edges
         if cury >= e.y2 {
+            #[cfg(feature = "verif")]
+            crate::verif::probe(crate::verif::ProbeSite::EdgeDroppedHorizontal);
             return;
         }
 
@@ -393,6 +399,8 @@ impl Rasterizer {
 
             // skia does this part in UpdateQuad. unfortunately we duplicate it
             while e.count > 0 && cury >= dot16_to_dot2(e.next_y) {
+                #[cfg(feature = "verif")]
+                crate::verif::tick(crate::verif::TickSite::CurveAdvanceAdd);
                 e.next_x += e.dx >> shift;
                 e.dx += e.ddx;
                 e.next_y += e.dy >> shift;
@@ -410,9 +418,13 @@ impl Rasterizer {
         }
 
         if cury < 0 {
+            #[cfg(feature = "verif")]
+            crate::verif::probe(crate::verif::ProbeSite::EdgeSteppedIn);
             // XXX: we could compute an intersection with the top and bottom so we don't need to step them into view
             // for curves we can just step them into place.
             while cury < 0 {
+                #[cfg(feature = "verif")]
+                crate::verif::tick(crate::verif::TickSite::EdgeStepIn);
                 e.step(cury);
                 cury += 1;
             }
@@ -436,6 +448,8 @@ impl Rasterizer {
         let mut edge = self.active_edges;
         let cury = self.cur_y; // avoid any aliasing problems
         while let Some(mut e_ptr) = edge {
+            #[cfg(feature = "verif")]
+            crate::verif::tick(crate::verif::TickSite::StepEdges);
             let e = unsafe { e_ptr.as_mut() };
             e.step(cury);
             // avoid aliasing between edge->next and prev_ptr so that we can reuse next
@@ -479,6 +493,8 @@ impl Rasterizer {
             let mut prev_ptr = &mut new_edges as *mut _;
             let mut new = new_edges;
             while let Some(mut new_ptr) = new {
+                #[cfg(feature = "verif")]
+                crate::verif::tick(crate::verif::TickSite::InsertEdges);
                 let a = unsafe { new_ptr.as_mut() };
                 if e.fullx <= a.fullx {
                     break;
@@ -499,6 +515,8 @@ impl Rasterizer {
         while let Some(mut e_ptr) = edge {
             let e = unsafe { e_ptr.as_mut() };
             while let Some(mut a_ptr) = active {
+                #[cfg(feature = "verif")]
+                crate::verif::tick(crate::verif::TickSite::MergeEdges);
                 let a = unsafe { a_ptr.as_mut() };
                 if e.fullx <= a.fullx {
                     break;
@@ -528,12 +546,16 @@ impl Rasterizer {
             if e.fullx >= 0 {
                 break;
             }
+            #[cfg(feature = "verif")]
+            crate::verif::probe(crate::verif::ProbeSite::EdgeLeftOfBitmap);
             winding += e.winding as i32;
             edge = e.next;
         }
 
         let mut prevx = 0;
         while let Some(mut e_ptr) = edge {
+            #[cfg(feature = "verif")]
+            crate::verif::tick(crate::verif::TickSite::ScanEdges);
             let e = unsafe { e_ptr.as_mut() };
 
             let inside = match winding_mode {
@@ -587,6 +609,8 @@ impl Rasterizer {
             let mut next_edge = unsafe { edge.as_mut() }.next;
             let mut prev = &mut self.active_edges as *mut _;
             while let Some(mut next_ptr) = next_edge {
+                #[cfg(feature = "verif")]
+                crate::verif::tick(crate::verif::TickSite::SortEdges);
                 let next = unsafe { next_ptr.as_mut() };
                 if unsafe { edge.as_mut() }.fullx > next.fullx {
                     // swap edge and next
@@ -614,6 +638,8 @@ impl Rasterizer {
             // we do 4x4 super-sampling so we need
             // to scan 4 times before painting a line of pixels
             for _ in 0..4 {
+                #[cfg(feature = "verif")]
+                crate::verif::tick(crate::verif::TickSite::RasterRow);
                 // insert the new edges into the sorted list
                 self.insert_starting_edges();
                 // scan over the edge list producing a list of spans
@@ -637,6 +663,8 @@ impl Rasterizer {
 
     pub fn reset(&mut self) {
         if self.bounds_bottom < self.bounds_top {
+            #[cfg(feature = "verif")]
+            crate::verif::probe(crate::verif::ProbeSite::ResetEarlyOut);
             debug_assert_eq!(self.active_edges, None);
             for e in &mut self.edge_starts {
                 debug_assert_eq!(*e, None);
@@ -662,5 +690,19 @@ impl Rasterizer {
         self.bounds_right = 0;
         self.bounds_top = dot2_to_int(self.height);
         self.bounds_left = dot2_to_int(self.width);
+    }
+}
+
+#[cfg(feature = "verif")]
+impl Rasterizer {
+    /// True when nothing of an earlier path is left behind: every edge bucket is
+    /// empty, there are no active edges and the bounds are at their initial values.
+    pub fn verif_idle(&self) -> bool {
+        self.active_edges.is_none()
+            && self.edge_starts.iter().all(|e| e.is_none())
+            && self.bounds_bottom == 0
+            && self.bounds_right == 0
+            && self.bounds_top == dot2_to_int(self.height)
+            && self.bounds_left == dot2_to_int(self.width)
     }
 }
